@@ -237,6 +237,12 @@ func createPromise(tags map[string]string, promiseCmd *t_aio.CreatePromiseComman
 
 		if err != nil {
 			slog.Warn("failed to match promise", "cmd", promiseCmd, "err", err)
+
+			if taskCmd == nil {
+				// without an answer from the router it is unknown whether the promise
+				// needs a task, creating it without one would lose the invocation
+				return nil, t_api.NewError(t_api.StatusAIOMatchError, err)
+			}
 		}
 
 		if taskCmd != nil && (err != nil || !completion.Router.Matched) {
